@@ -129,9 +129,21 @@ def render_case(case: dict) -> str:
 
 
 def build(case: dict, route: str) -> dict:
-    ns = {'__name__': f"c13gen_{case['id']}_{route}"}
-    exec(compile(render_case(case), f"<c13 {case['id']} {route}>", 'exec'), ns)
-    return ns
+    """exec the generated source as a (registered) module; `cleanup(ns)` unregisters it"""
+    name = f"c13gen_{case['id']}_{route}"
+    mod = types.ModuleType(name)
+    sys.modules[name] = mod
+    try:
+        exec(compile(render_case(case), f"<c13 {case['id']} {route}>", 'exec', dont_inherit=True), mod.__dict__)
+    except BaseException:
+        sys.modules.pop(name, None)
+        raise
+    return mod.__dict__
+
+
+def cleanup(*nss):
+    for ns in nss:
+        sys.modules.pop(ns.get('__name__'), None)
 
 
 # ---------------------------------------------------------------------------
@@ -217,7 +229,10 @@ def reify_class(cls, lab: Labels, module: str, path: tuple = (), seen: set | Non
     if cls.__module__ != module or cls in path:
         return ['k', lab.of(cls), qual, is_cls_marked(cls), [], []]      # foreign class: shallow
     o = lab.of(cls)
-    own = [[name, reify_member(v, lab, module, path + (cls,), seen)] for name, v in list(cls.__dict__.items())]
+    # `__sizeof__` is where beartype hangs its per-class marker cache (added by the first decoration):
+    # bookkeeping, not a member; the oracle checks separately that nothing else is ever added
+    own = [[name, reify_member(v, lab, module, path + (cls,), seen)] for name, v in list(cls.__dict__.items())
+           if name != '__sizeof__']
     inh = []
     names = set(cls.__dict__)
     for b in cls.__mro__[1:]:
@@ -429,6 +444,7 @@ def run_optimized(case: dict) -> dict:
     from beartype import beartype
     conf = make_conf(case['conf'])
     ns = build(case, 'o')
+    cleanup(ns)
     mod = ns['__name__']
     K = ns[case['cls']['name']]
     lab = Labels()
